@@ -990,7 +990,7 @@ func runFlagSpace(c *Check, a *Analysis) {
 		region[f] = true
 		for _, g := range withClosures(f) {
 			region[g] = true
-			eachInstr(g, func(in ssa.Instruction) {
+			eachInstrLocal(g, func(in ssa.Instruction) {
 				if cc, ok := in.(ssa.CallInstruction); ok {
 					add(cc.Common().StaticCallee())
 				}
